@@ -34,39 +34,169 @@ pub const CHANNEL_VALUE: u64 = 3_000_000;
 const PEER: [u8; 33] = [2u8; 33];
 const DBID: u64 = 1;
 
-/// commitment contents: id → (to_holder, to_counterparty); feerate 0.
-/// 0..=3: no HTLCs; 4..=8: holder commitments carrying 1..=5 received HTLCs of 10_000 sat
-/// (incoming payments: no invoice needed); 9: fee far out of range (policy-commitment-fee-range)
+/// HOLDER commitment contents: id = base + 16 * feerate_index.
+/// base 0..=3: no HTLCs; 4..=8: 1..=5 received HTLCs of 10_000 sat (incoming payments: no invoice needed);
+/// 9: fee far out of range (policy-commitment-fee-range).  feerate_index 0,1,2 = feerate_per_kw 0, 1000, 2500
+/// (part of `CommitmentInfo2`, decides the second-level HTLC transactions on this non-anchor channel).
 pub fn content(c: u64) -> (u64, u64) {
-    match c {
-        0..=3 => (2_999_000 - 100 * c, 0),
-        4..=8 => (2_980_000 - 10_100 * (c - 3), 0),
+    match c % 16 {
+        b @ 0..=3 => (2_999_000 - 100 * b, 0),
+        b @ 4..=8 => (2_980_000 - 10_100 * (b - 3), 0),
         // fee of 2M sat on ~724 weight units: far above max_feerate_per_kw
         _ => (1_000_000, 0),
     }
 }
+pub const FEERATES: [u32; 3] = [0, 1000, 2500];
+pub fn content_feerate(c: u64) -> u32 {
+    FEERATES[((c / 16) % 3) as usize]
+}
 /// number of HTLCs of a content
 pub fn content_htlcs(c: u64) -> u64 {
-    if (4..=8).contains(&c) { c - 3 } else { 0 }
+    let b = c % 16;
+    if (4..=8).contains(&b) { b - 3 } else { 0 }
 }
 pub fn htlcs_of(c: u64) -> Vec<HTLCInfo2> {
     (0..content_htlcs(c))
         .map(|k| HTLCInfo2 { value_sat: 10_000, payment_hash: PaymentHash([k as u8 + 1; 32]), cltv_expiry: (k as u32 + 1) << 16 })
         .collect()
 }
-pub const ALL_CONTENTS: [u64; 10] = [0, 1, 2, 3, 4, 5, 6, 7, 8, 9];
+pub fn all_contents() -> Vec<u64> {
+    let mut v = vec![];
+    for f in 0..3u64 {
+        for b in 0..=9u64 {
+            v.push(b + 16 * f);
+        }
+    }
+    v
+}
 /// verdict of the content rules for commitment number `n` (the initial commitment may not carry HTLCs)
 pub fn content_policy_ok(c: u64, n: u64) -> bool {
-    c <= 3 || ((4..=8).contains(&c) && n != 0)
+    let b = c % 16;
+    b <= 3 || ((4..=8).contains(&b) && n != 0)
 }
-fn content_id_of(to_holder: u64, htlcs: usize) -> u64 {
-    for c in ALL_CONTENTS {
-        if content(c).0 == to_holder && content_htlcs(c) as usize == htlcs {
+/// id of a holder `CommitmentInfo2` (the WHOLE record: balances, HTLC lists, feerate); 999 = none of ours
+pub fn holder_content_id(i: &CommitmentInfo2) -> u64 {
+    for c in all_contents() {
+        let (th, tc) = content(c);
+        if !i.is_counterparty_broadcaster
+            && i.to_broadcaster_value_sat == th
+            && i.to_countersigner_value_sat == tc
+            && i.offered_htlcs.is_empty()
+            && i.received_htlcs == htlcs_of(c)
+            && i.feerate_per_kw == content_feerate(c)
+        {
             return c;
         }
     }
     999
 }
+
+/// COUNTERPARTY commitment contents, every component independent (mixed radix):
+///   id = b + 4*f + 12*t + 24*h1 + 408*h2 + 6936*bad
+///   b 0..=3: to_holder = 2_900_000 - 100*b;  f 0..=2: feerate_per_kw 0/1000/2500;  t 0..=1: to_counterparty 0 / 20_000;
+///   h1, h2 0..=16: HTLC slot, 0 = absent, else 1 + 8*dir + 4*amt + 2*hash + cltv with dir 0 = offered by the
+///   counterparty (incoming) / 1 = received by it (outgoing, approved by keysend at setup), amt 10_000/12_000 sat,
+///   hash [1;32]/[2;32] (offered) or [0xA1;32]/[0xA2;32] (received), cltv 1<<16 / 2<<16;  bad = 1: to_holder = 1_000_000 (fee out of range).
+/// Canonical form (so that id ↔ record is one-to-one): h2 = 0 if h1 = 0; if the directions differ h1 is the
+/// offered one; b = 0 if bad.
+#[derive(Clone, Debug, PartialEq)]
+pub struct CpContent {
+    pub feerate: u32,
+    pub to_holder: u64,
+    pub to_cp: u64,
+    pub offered: Vec<HTLCInfo2>,
+    pub received: Vec<HTLCInfo2>,
+    pub bad: bool,
+}
+fn slot_htlc(code: u64) -> (bool, HTLCInfo2) {
+    let x = code - 1;
+    let (dir, amt, hash, cltv) = (x / 8 % 2, x / 4 % 2, x / 2 % 2, x % 2);
+    (
+        dir == 1,
+        HTLCInfo2 {
+            value_sat: if amt == 0 { 10_000 } else { 12_000 },
+            // outgoing HTLCs use their own pair of hashes: a hash that is incoming on one commitment and outgoing
+            // on another is a routed payment, with CLTV ordering rules that are C06's subject, not C03's
+            payment_hash: PaymentHash([if dir == 1 { 0xA1 + hash as u8 } else { hash as u8 + 1 }; 32]),
+            cltv_expiry: (cltv as u32 + 1) << 16,
+        },
+    )
+}
+fn htlc_slot(received: bool, h: &HTLCInfo2) -> Option<u64> {
+    let amt = match h.value_sat { 10_000 => 0, 12_000 => 1, _ => return None };
+    let (h0, h1) = if received { ([0xA1u8; 32], [0xA2u8; 32]) } else { ([1u8; 32], [2u8; 32]) };
+    let hash = if h.payment_hash.0 == h0 { 0 } else if h.payment_hash.0 == h1 { 1 } else { return None };
+    let cltv = if h.cltv_expiry == 1 << 16 { 0 } else if h.cltv_expiry == 2 << 16 { 1 } else { return None };
+    Some(1 + 8 * (received as u64) + 4 * amt + 2 * hash + cltv)
+}
+pub fn cp_canonical(id: u64) -> u64 {
+    let (b, f, t, mut h1, mut h2, bad) = (id % 4, id / 4 % 3, id / 12 % 2, id / 24 % 17, id / 408 % 17, id / 6936 % 2);
+    if h1 == 0 {
+        h1 = h2;
+        h2 = 0;
+    }
+    if h1 != 0 && h2 != 0 && (h1 - 1) / 8 % 2 == 1 && (h2 - 1) / 8 % 2 == 0 {
+        std::mem::swap(&mut h1, &mut h2);
+    }
+    // `CommitmentInfo2::new` sorts each HTLC list by (amount, hash, cltv): same order as the slot code
+    if h1 != 0 && h2 != 0 && (h1 - 1) / 8 % 2 == (h2 - 1) / 8 % 2 && h1 > h2 {
+        std::mem::swap(&mut h1, &mut h2);
+    }
+    (if bad == 1 { 0 } else { b }) + 4 * f + 12 * t + 24 * h1 + 408 * h2 + 6936 * bad
+}
+pub fn cp_content(id: u64) -> CpContent {
+    let (b, f, t, h1, h2, bad) = (id % 4, id / 4 % 3, id / 12 % 2, id / 24 % 17, id / 408 % 17, id / 6936 % 2);
+    let mut offered = vec![];
+    let mut received = vec![];
+    for h in [h1, h2] {
+        if h != 0 {
+            let (rcv, x) = slot_htlc(h);
+            if rcv { received.push(x) } else { offered.push(x) }
+        }
+    }
+    CpContent {
+        feerate: FEERATES[f as usize],
+        to_holder: if bad == 1 { 1_000_000 } else { 2_900_000 - 100 * b },
+        to_cp: if t == 1 { 20_000 } else { 0 },
+        offered,
+        received,
+        bad: bad == 1,
+    }
+}
+/// id of a counterparty `CommitmentInfo2` (the WHOLE record); 999_999 = none of ours
+pub fn cp_content_id(i: &CommitmentInfo2) -> u64 {
+    if !i.is_counterparty_broadcaster {
+        return 999_999;
+    }
+    let bad = i.to_countersigner_value_sat == 1_000_000;
+    let b = if bad { 0 } else {
+        let d = 2_900_000u64.wrapping_sub(i.to_countersigner_value_sat);
+        if d % 100 != 0 || d / 100 > 3 { return 999_999 }
+        d / 100
+    };
+    let f = match FEERATES.iter().position(|x| *x == i.feerate_per_kw) { Some(f) => f as u64, None => return 999_999 };
+    let t = match i.to_broadcaster_value_sat { 0 => 0, 20_000 => 1, _ => return 999_999 };
+    let mut slots = vec![];
+    for h in &i.offered_htlcs {
+        match htlc_slot(false, h) { Some(x) => slots.push(x), None => return 999_999 }
+    }
+    for h in &i.received_htlcs {
+        match htlc_slot(true, h) { Some(x) => slots.push(x), None => return 999_999 }
+    }
+    if slots.len() > 2 {
+        return 999_999;
+    }
+    let h1 = slots.first().copied().unwrap_or(0);
+    let h2 = slots.get(1).copied().unwrap_or(0);
+    let id = b + 4 * f + 12 * t + 24 * h1 + 408 * h2 + 6936 * (bad as u64);
+    if cp_content(id) == (CpContent { feerate: i.feerate_per_kw, to_holder: i.to_countersigner_value_sat, to_cp: i.to_broadcaster_value_sat, offered: i.offered_htlcs.clone(), received: i.received_htlcs.clone(), bad }) { id } else { 999_999 }
+}
+/// verdict of the content rules for counterparty commitment number `n`
+pub fn cp_content_policy_ok(id: u64, n: u64) -> bool {
+    let c = cp_content(id);
+    !c.bad && (n != 0 || (c.offered.is_empty() && c.received.is_empty() && c.to_cp == 0))
+}
+
 /// the fact `check_holder_tx_signatures` is expected to establish for signature variant `v` on a
 /// content with `h` HTLCs: 1 = valid, 0 = invalid, 2 = out-of-bounds panic (see `SigFact`)
 pub fn sig_fact(v: u64, h: u64) -> u64 {
@@ -135,6 +265,9 @@ fn services(persister: Arc<dyn Persist>) -> NodeServices {
 }
 
 pub fn class_of(s: &Status) -> String {
+    if std::env::var("C01_DEBUG").is_ok() {
+        eprintln!("   status: {}", s.message());
+    }
     match s.code() {
         Code::FailedPrecondition => "err:policy".into(),
         Code::InvalidArgument => "err:invalid".into(),
@@ -252,10 +385,7 @@ impl World {
     fn info_id(i: &Option<CommitmentInfo2>, holder: bool) -> String {
         match i {
             None => "-".into(),
-            Some(i) => {
-                let v = if holder { i.to_broadcaster_value_sat } else { i.to_countersigner_value_sat };
-                if !i.offered_htlcs.is_empty() { "998".into() } else { content_id_of(v, i.received_htlcs.len()).to_string() }
-            }
+            Some(i) => if holder { holder_content_id(i).to_string() } else { cp_content_id(i).to_string() },
         }
     }
 
@@ -361,7 +491,7 @@ impl World {
     fn on_cp_signed(&mut self, n: u64, pt: u64, c: u64) {
         if let Some((p0, c0)) = self.mon.cp_signed.get(&n).copied() {
             if p0 != pt || c0 != c {
-                self.violation("c03-resign-different", format!("counterparty commitment {} re-signed with point/content ({},{}) after ({},{})", n, pt, c, p0, c0));
+                self.violation("c03-resign-changed", format!("counterparty commitment {} re-signed with point/content ({},{}) after ({},{})", n, pt, c, p0, c0));
             }
         } else {
             self.mon.cp_signed.insert(n, (pt, c));
@@ -375,6 +505,52 @@ impl World {
         let unrevoked = self.mon.cp_signed.keys().filter(|k| !self.mon.cp_revoked.contains_key(k)).count();
         if unrevoked > 2 {
             self.violation("c03-three-unrevoked", format!("{} signed counterparty commitments are unrevoked", unrevoked));
+        }
+    }
+
+    /// The HTLC signatures returned for counterparty commitment `n` must verify against the second-level
+    /// transactions of the content FIRST recorded for `n` (built here, independently): a re-signed number with a
+    /// changed component (e.g. the feerate) yields signatures over different HTLC transactions.
+    fn check_cp_htlc_sigs(&mut self, n: u64, hsigs: &[Signature]) {
+        use lightning_signer::bitcoin::sighash::{EcdsaSighashType, SighashCache};
+        use lightning_signer::bitcoin::Amount;
+        use lightning_signer::lightning::ln::chan_utils::{build_htlc_transaction, get_htlc_redeemscript};
+        let (ptid, c) = match self.mon.cp_signed.get(&n).copied() { Some(x) => x, None => return };
+        let cc = cp_content(c);
+        let point = self.cp_point((ptid - 1000) / 4, (ptid - 1000) % 4);
+        let secp = self.secp.clone();
+        let setup = self.setup.clone();
+        let res: Result<Option<String>, Status> = self.node.with_channel(&self.channel_id, |chan| {
+            let htlcs = Channel::htlcs_info2_to_oic(&cc.offered, &cc.received);
+            let tx = chan.make_counterparty_commitment_tx(&point, n & INITIAL, cc.feerate, cc.to_holder, cc.to_cp, htlcs);
+            let trusted = tx.trust();
+            let keys = trusted.keys();
+            let txid = trusted.built_transaction().txid;
+            // our HTLC key for this commitment = htlc_basepoint tweaked by the counterparty's point
+            let htlc_pub = keys.countersignatory_htlc_key.to_public_key();
+            if tx.htlcs().len() != hsigs.len() {
+                return Ok(Some(format!("{} HTLC signatures for {} HTLCs", hsigs.len(), tx.htlcs().len())));
+            }
+            for (i, htlc) in tx.htlcs().iter().enumerate() {
+                let htlc_tx = build_htlc_transaction(&txid, cc.feerate, setup.holder_selected_contest_delay, htlc, &setup.features(), &keys.broadcaster_delayed_payment_key, &keys.revocation_key);
+                let script = get_htlc_redeemscript(htlc, &setup.features(), &keys);
+                let sh = lightning_signer::bitcoin::secp256k1::Message::from_digest({
+                    use lightning_signer::bitcoin::hashes::Hash;
+                    SighashCache::new(&htlc_tx).p2wsh_signature_hash(0, &script, Amount::from_sat(htlc.amount_msat / 1000), EcdsaSighashType::All).unwrap().to_byte_array()
+                });
+                if secp.verify_ecdsa(&sh, &hsigs[i], &htlc_pub).is_err() {
+                    return Ok(Some(format!("HTLC signature {} does not verify against the HTLC transaction of the recorded content {}", i, c)));
+                }
+            }
+            Ok(None)
+        });
+        if let Ok(None) = res {
+            if !hsigs.is_empty() {
+                self.tags.insert("signcp:htlc-sigs-verified".into());
+            }
+        }
+        if let Ok(Some(why)) = res {
+            self.violation("c03-resign-changed", format!("signatures returned for counterparty commitment {} do not belong to the content first signed for it: {}", n, why));
         }
     }
 
@@ -419,7 +595,7 @@ impl World {
         if !ok {
             return None;
         }
-        let mut ctx = channel_commitment(&nc, &cc, n, 0, th, tc, vec![], htlcs_of(c));
+        let mut ctx = channel_commitment(&nc, &cc, n, content_feerate(c), th, tc, vec![], htlcs_of(c));
         let (sig, hs) = counterparty_sign_holder_commitment(&nc, &cc, &mut ctx);
         Some((ctx, sig, hs))
     }
@@ -484,7 +660,7 @@ impl World {
                 for (i, htlc) in tx.htlcs().iter().enumerate() {
                     let htlc_tx = build_htlc_transaction(
                         &built.txid,
-                        0,
+                        ctx.feerate_per_kw,
                         cc.setup.counterparty_selected_contest_delay,
                         htlc,
                         &cc.setup.features(),
@@ -557,13 +733,13 @@ impl World {
                     )
                     .expect("scripts");
                     let wit: Vec<Vec<u8>> = scripts.iter().map(|s| s.as_bytes().to_vec()).collect();
-                    chan.validate_holder_commitment_tx(&tx, &wit, n, 0, vec![], received.clone(), &sig, &hsigs)
+                    chan.validate_holder_commitment_tx(&tx, &wit, n, content_feerate(c), vec![], received.clone(), &sig, &hsigs)
                 });
                 return (r, full);
             }
         }
         let r = self.node.with_channel(&self.channel_id, |chan| {
-            chan.validate_holder_commitment_tx_phase2(n, 0, th, tc, vec![], received.clone(), &sig, &hsigs)
+            chan.validate_holder_commitment_tx_phase2(n, content_feerate(c), th, tc, vec![], received.clone(), &sig, &hsigs)
         });
         (r, full)
     }
@@ -636,6 +812,10 @@ impl World {
                         Ok(_) => {
                             let nc = self.node_ctx();
                             self.cp_keys = Some(make_test_counterparty_keys(&nc, &self.channel_id, CHANNEL_VALUE));
+                            // outgoing HTLCs (received by the counterparty) need an approved payment
+                            for hsh in [[0xA1u8; 32], [0xA2u8; 32]] {
+                                let _ = self.node.add_keysend(lightning_signer::util::test_utils::key::make_test_pubkey(1), PaymentHash(hsh), 30_000_000);
+                            }
                             Ok("ok".into())
                         }
                         Err(e) => Err(class_of(&e)),
@@ -715,13 +895,13 @@ impl World {
                             let next = self.estate().unwrap().next_holder_commit_num;
                             let mut found = None;
                             for n in next.saturating_sub(3)..=next + 1 {
-                                for c in ALL_CONTENTS {
+                                for c in all_contents() {
                                     let ok = self.node.with_channel(&self.channel_id, |ch| ch.get_per_commitment_point(n)).is_ok();
                                     if !ok {
                                         continue;
                                     }
                                     let (th, tc) = content(c);
-                                    let ctx = channel_commitment(&self.node_ctx(), &self.chan_ctx(), n, 0, th, tc, vec![], htlcs_of(c));
+                                    let ctx = channel_commitment(&self.node_ctx(), &self.chan_ctx(), n, content_feerate(c), th, tc, vec![], htlcs_of(c));
                                     let cand = ctx.tx.as_ref().unwrap().trust().built_transaction().transaction.clone();
                                     if cand.compute_txid() == tx.compute_txid() {
                                         found = Some(n);
@@ -745,7 +925,7 @@ impl World {
                 "signredundant" => {
                     let (n, c) = (num(1), num(2));
                     let (th, tc) = content(c);
-                    match self.node.with_channel(&self.channel_id, |chan| chan.sign_holder_commitment_tx_phase2_redundant(n, 0, th, tc, vec![], htlcs_of(c))) {
+                    match self.node.with_channel(&self.channel_id, |chan| chan.sign_holder_commitment_tx_phase2_redundant(n, content_feerate(c), th, tc, vec![], htlcs_of(c))) {
                         Ok(_) => {
                             self.on_holder_sig(n, "sign_holder_commitment_tx_phase2_redundant");
                             Ok(format!("ok signed={}", n))
@@ -773,33 +953,40 @@ impl World {
                     let src_n = (ptid - 1000) / 4;
                     let kind = (ptid - 1000) % 4;
                     let point = self.cp_point(src_n, kind);
-                    let (th, tc) = content(c);
+                    let cc = cp_content(c);
                     let r = if ph == 1 {
                         self.node.with_channel(&self.channel_id, |chan| {
                             let params = chan.make_channel_parameters();
                             let parameters = params.as_counterparty_broadcastable();
                             let keys = chan.make_counterparty_tx_keys(&point);
-                            let ctx = chan.make_counterparty_commitment_tx(&point, n & INITIAL, 0, th, tc, vec![]);
+                            let htlcs = Channel::htlcs_info2_to_oic(&cc.offered, &cc.received);
+                            let ctx = chan.make_counterparty_commitment_tx(&point, n & INITIAL, cc.feerate, cc.to_holder, cc.to_cp, htlcs.clone());
                             let tx = ctx.trust().built_transaction().transaction.clone();
                             let scripts = build_tx_scripts(
                                 &keys,
-                                tc,
-                                th,
-                                &vec![],
+                                cc.to_cp,
+                                cc.to_holder,
+                                &htlcs,
                                 &parameters,
                                 &chan.keys.pubkeys().funding_pubkey,
                                 &chan.setup.counterparty_points.funding_pubkey,
                             )
                             .expect("scripts");
                             let wit: Vec<Vec<u8>> = scripts.iter().map(|s| s.as_bytes().to_vec()).collect();
-                            chan.sign_counterparty_commitment_tx(&tx, &wit, &point, n, 0, vec![], vec![]).map(|_| ())
+                            chan.sign_counterparty_commitment_tx(&tx, &wit, &point, n, cc.feerate, cc.offered.clone(), cc.received.clone()).map(|_| None)
                         })
                     } else {
-                        self.node.with_channel(&self.channel_id, |chan| chan.sign_counterparty_commitment_tx_phase2(&point, n, 0, th, tc, vec![], vec![]).map(|_| ()))
+                        self.node.with_channel(&self.channel_id, |chan| {
+                            chan.sign_counterparty_commitment_tx_phase2(&point, n, cc.feerate, cc.to_holder, cc.to_cp, cc.offered.clone(), cc.received.clone())
+                                .map(|(_, hs)| Some(hs))
+                        })
                     };
                     match r {
-                        Ok(()) => {
+                        Ok(hs) => {
                             self.on_cp_signed(n, ptid, c);
+                            if let Some(hs) = hs {
+                                self.check_cp_htlc_sigs(n, &hs);
+                            }
                             Ok("ok".into())
                         }
                         Err(e) => Err(class_of(&e)),
@@ -845,7 +1032,7 @@ impl World {
                         .collect();
                     let m = msgs::ValidateCommitmentTx2 {
                         commitment_number: n,
-                        feerate: 0,
+                        feerate: content_feerate(c),
                         to_local_value_sat: th,
                         to_remote_value_sat: tc,
                         htlcs: wire_htlcs.into(),
@@ -976,32 +1163,36 @@ impl World {
                 "hsigncp" => {
                     // SignRemoteCommitmentTx2
                     let (n, ptid, c) = (num(1), num(2), num(3));
-                    let (th, tc) = content(c);
+                    let cc = cp_content(c);
                     let h = self.handler(6);
-                    if !ready {
-                        // the point table needs the counterparty keys, which exist only after setup
-                        let m = msgs::SignRemoteCommitmentTx2 {
-                            remote_per_commitment_point: PubKey(PublicKey::from_secret_key(&self.secp, &SecretKey::from_slice(&[0x33; 32]).unwrap()).serialize()),
-                            commitment_number: n,
-                            feerate: 0,
-                            to_local_value_sat: th,
-                            to_remote_value_sat: tc,
-                            htlcs: vec![].into(),
-                        };
-                        return h.handle(Message::SignRemoteCommitmentTx2(m)).map(|_| "ok".to_string()).map_err(|e| herr_class(&e));
+                    // wire HTLCs: the handler flips the sides ("LOCAL" = offered by us = received by the counterparty)
+                    let mut wire: Vec<vls_protocol::model::Htlc> = vec![];
+                    for (side, l) in [(vls_protocol::model::Htlc::REMOTE, &cc.offered), (vls_protocol::model::Htlc::LOCAL, &cc.received)] {
+                        for x in l {
+                            wire.push(vls_protocol::model::Htlc { side, amount: x.value_sat * 1000, payment_hash: vls_protocol::model::Sha256(x.payment_hash.0), ctlv_expiry: x.cltv_expiry });
+                        }
                     }
-                    let point = self.cp_point((ptid - 1000) / 4, (ptid - 1000) % 4);
+                    let point = if ready {
+                        self.cp_point((ptid - 1000) / 4, (ptid - 1000) % 4)
+                    } else {
+                        // the point table needs the counterparty keys, which exist only after setup
+                        PublicKey::from_secret_key(&self.secp, &SecretKey::from_slice(&[0x33; 32]).unwrap())
+                    };
                     let m = msgs::SignRemoteCommitmentTx2 {
                         remote_per_commitment_point: PubKey(point.serialize()),
                         commitment_number: n,
-                        feerate: 0,
-                        to_local_value_sat: th,
-                        to_remote_value_sat: tc,
-                        htlcs: vec![].into(),
+                        feerate: cc.feerate,
+                        to_local_value_sat: cc.to_holder,
+                        to_remote_value_sat: cc.to_cp,
+                        htlcs: wire.into(),
                     };
                     match h.handle(Message::SignRemoteCommitmentTx2(m)) {
-                        Ok(_) => {
+                        Ok(rep) => {
                             self.on_cp_signed(n, ptid, c);
+                            if let Message::SignCommitmentTxWithHtlcsReply(rep) = self.reply(rep) {
+                                let hs: Vec<Signature> = rep.htlc_signatures.iter().filter_map(|x| Signature::from_compact(&x.signature.0).ok()).collect();
+                                self.check_cp_htlc_sigs(n, &hs);
+                            }
                             Ok("ok".into())
                         }
                         Err(e) => Err(herr_class(&e)),
@@ -1094,7 +1285,7 @@ impl World {
                         psbt: vls_protocol::serde_bolt::WithSize(vls_protocol::psbt::PsbtWrapper { inner: psbt }),
                         htlcs: wire_htlcs.into(),
                         commitment_number: n,
-                        feerate: 0,
+                        feerate: content_feerate(c),
                         signature: BitcoinSignature { signature: WireSig(sig.serialize_compact()), sighash: 1 },
                         htlc_signatures: hsigs
                             .iter()
